@@ -2,7 +2,7 @@
 # usage: tools/seed_matrix.sh [dir ...]   (default: every seeded/* and benign/*)
 # Applies each recorded patch to a scratch copy of /repo's working tree (outside /repo and /verif, removed at once),
 # runs every check on the copy and records which properties fire: <dir>/fires.txt, <dir>/detected_by.txt; prints a matrix.
-export GOFLAGS=-mod=mod GOPROXY=off GOSUMDB=off GOTOOLCHAIN=local; unset GOWORK
+export GOFLAGS=-mod=mod GOPROXY=off GOSUMDB=off GOTOOLCHAIN=local GOGC=400 GOMAXPROCS=2; unset GOWORK
 cd /verif
 DIRS="$@"; [ -z "$DIRS" ] && DIRS="$(ls -d seeded/*/ benign/*/)"
 one() {
